@@ -464,7 +464,7 @@ fn main() {
     "scores compared at 1e-4 relative; positions whose sort keys are equal within 1e-5 relative may be swapped".into(),
     "requests whose min_score lies within 1e-4 of a produced score are skipped (inconclusive); a difference that disappears under execution=bm25 is attributed to pruning (C12) and recorded as inconclusive".into(),
   ];
-  let n = ctx.n(300, 6000);
+  let n = ctx.n(300, 60_000);
   let per = if ctx.quick() { 20 } else { 40 };
   ctx.run_cases("corpus", n, |rng: &mut Rng, l: &mut Local, scratch| {
     let cfg = rk::CorpusCfg { min_docs: 10, max_docs: 80, max_groups: 4, allow_missing_grp: false, allow_multi_grp: false, max_commits: 4 };
